@@ -19,7 +19,8 @@ View(r, mode) == [id |-> IF InSeq("n", r.fields) THEN r.id ELSE 0,
 Views(q, mode) == [i \in DOMAIN q |-> View(q[i], mode)]
 \* verdict: the concatenation of the parts is exactly the specified sequence; no part exceeds the limit
 Contract == /\ ~C.raised
-            /\ Views(Flat(C.parts), C.mode) = Views(Exp, C.mode)
+            /\ [i \in DOMAIN Flat(C.parts) |-> LET p == Flat(C.parts)[i] IN [id |-> p.id, fields |-> p.fields, src |-> p.src, cls |-> p.cls, tsd |-> p.tsd]]
+                 = Views(Exp, C.mode)
             /\ (C.cfg.split > 0 => \A i \in DOMAIN C.parts : Len(C.parts[i]) <= C.cfg.split)
 \* drift: the exact part boundaries of the greedy split
 Design == C.mode = "stream" => [i \in DOMAIN C.parts |-> Len(C.parts[i])] = [i \in DOMAIN Chunk(Exp, C.cfg.split) |-> Len(Chunk(Exp, C.cfg.split)[i])]
